@@ -3,6 +3,7 @@ package main
 // Operators, conversions, interfaces, maps.
 
 import (
+	"sort"
 	"fmt"
 	"go/token"
 	"go/types"
@@ -450,6 +451,7 @@ func (r *FnRun) execTypeAssert(st *State, x *ssa.TypeAssert) {
 	} else {
 		okT = tb.Eq(iv.Tag, r.e.typeTag(x.AssertedType))
 		res = r.unbox(iv.Data, x.AssertedType)
+		r.linkAttrs(st, iv, x.AssertedType, okT)
 	}
 	if x.CommaOk {
 		r.vals[x] = TupleV{Elems: []Val{res, Scalar{okT}}}
@@ -627,3 +629,38 @@ func (r *FnRun) execNext(st *State, x *ssa.Next) {
 }
 
 var _ = ssa.Value(nil)
+
+
+// linkAttrs: when a type assertion to concrete type T succeeds on interface value iv, the per-type ghost attributes
+// of iv (uninterpreted while its dynamic type is symbolic) equal their definitions for T.
+func (r *FnRun) linkAttrs(st *State, iv IfaceV, T types.Type, okT *Term) {
+	tb := r.tb()
+	ct := r.e.typeTag(T)
+	ta, _ := r.e.attrsForTag(ct)
+	if ta == nil || iv.Tag.IsConst() {
+		return
+	}
+	defer func() { recover() }() // attributes that cannot be evaluated here are simply not linked
+	var names []string
+	for n, ad := range ta.Attrs {
+		if len(ad.Params) == 0 {
+			names = append(names, n)
+		}
+	}
+	sort.Strings(names)
+	env := r.rootEnvFor(st)
+	env.vars["iv__sym"] = CV{V: iv, T: specTypes["iface"]}
+	env.vars["iv__con"] = CV{V: IfaceV{Tag: ct, Data: iv.Data}, T: specTypes["iface"]}
+	for _, n := range names {
+		mk := func(v string) *Expr {
+			return &Expr{Kind: "call", Name: n, Args: []*Expr{{Kind: "ident", Name: v}}}
+		}
+		a := env.Eval(mk("iv__sym"))
+		b := env.Eval(mk("iv__con"))
+		at, bt := r.scalar(a.V), r.scalar(b.V)
+		if at.Sort != bt.Sort {
+			continue
+		}
+		r.assume(st, tb.Implies(okT, tb.Eq(at, bt)))
+	}
+}
